@@ -201,7 +201,9 @@ def obligations(tier, rng):
         f2 = rng.sample(f2, len(f2) * 8 // 100)
     for f in f2:
         for N in ([5] if quick else [4, 7]):
-            out.append(ob('C02', 'online', 'F2/%s/N=%d' % (text(f), N), f=f, N=N, ext=_ext_ok(f)))
+            # extended-real operands only on the shorter trace: on N=7 the nested (k,r) encoding makes single queries exceed
+            # the 60 s solver timeout (measured: x4-5 per extra sample for '(x since y) since z')
+            out.append(ob('C02', 'online', 'F2/%s/N=%d' % (text(f), N), f=f, N=N, ext=_ext_ok(f) and N <= 5))
     for f in fdup():
         for N in ([4] if quick else [3, 6]):
             out.append(ob('C02', 'online', 'Fdup/%s/N=%d' % (text(f), N), f=f, N=N, ext=_ext_ok(f)))
